@@ -53,3 +53,164 @@ package loader
 //@   ensures normal ==> consReady(node) && !hasRule(node, constraint.ExclusiveMaximumConstraintType)
 //@   ensures normal && old(hasRule(node, constraint.ExclusiveMaximumConstraintType)) ==> maxOf(node).exclusive == (old(maxOf(node).exclusive) || old(unbox(consOf(node).data[constraint.ExclusiveMaximumConstraintType], *constraint.ExclusiveMaximum).exclusive))
 //@   ensures normal ==> (forall q constraint.Type :: q != constraint.ExclusiveMaximumConstraintType ==> hasRule(node, q) == old(hasRule(node, q)) && consOf(node).data[q] == old(consOf(node).data[q]))
+
+// C08: "enum ... not combined with foreign rules": with enum only optional,
+// const, nullable and type may appear
+//@ func (schemaCompiler).enumConstraint(node)
+//@   props C08
+//@   requires isNode(node) && consReady(node)
+//@   requires hasRule(node, constraint.TypeConstraintType) ==> typeis(consOf(node).data[constraint.TypeConstraintType], *constraint.TypeConstraint) && ival(consOf(node).data[constraint.TypeConstraintType]) != 0
+//@   maypanic
+//@   ensures !hasRule(node, constraint.EnumConstraintType) ==> normal
+//@   ensures normal && hasRule(node, constraint.EnumConstraintType) ==> (forall q constraint.Type :: hasRule(node, q) ==>
+//@           (q == constraint.EnumConstraintType || q == constraint.OptionalConstraintType || q == constraint.ConstConstraintType || q == constraint.NullableConstraintType || q == constraint.TypeConstraintType))
+//@   ensures hasRule(node, constraint.EnumConstraintType) && (exists q constraint.Type :: hasRule(node, q) &&
+//@           !(q == constraint.EnumConstraintType || q == constraint.OptionalConstraintType || q == constraint.ConstConstraintType || q == constraint.NullableConstraintType || q == constraint.TypeConstraintType)) ==> panics
+//@   ensures panics ==> errWF(pv)
+
+// C08: "any ... not combined with foreign rules", and no nested elements under type any
+//@ func (schemaCompiler).anyConstraint(node)
+//@   props C08
+//@   requires isNode(node) && consReady(node)
+//@   maypanic
+//@   ensures !hasRule(node, constraint.AnyConstraintType) ==> normal
+//@   ensures normal && hasRule(node, constraint.AnyConstraintType) ==> (forall q constraint.Type :: hasRule(node, q) ==>
+//@           (q == constraint.AnyConstraintType || q == constraint.OptionalConstraintType || q == constraint.NullableConstraintType || q == constraint.ConstConstraintType))
+//@   ensures normal && hasRule(node, constraint.AnyConstraintType) && isBranch(node) ==> len(childrenOf(node)) == 0
+//@   ensures hasRule(node, constraint.AnyConstraintType) && ((isBranch(node) && len(childrenOf(node)) != 0) || (exists q constraint.Type :: hasRule(node, q) &&
+//@           !(q == constraint.AnyConstraintType || q == constraint.OptionalConstraintType || q == constraint.NullableConstraintType || q == constraint.ConstConstraintType))) ==> panics
+//@   ensures panics ==> errWF(pv)
+
+// C08: "precision is used only with decimal"
+//@ func (schemaCompiler).precisionConstraint(node)
+//@   props C08
+//@   requires isNode(node) && consReady(node) && rulesTyped(node)
+//@   assumes hasRule(node, constraint.TypeConstraintType) ==> len(unbox(consOf(node).data[constraint.TypeConstraintType], *constraint.TypeConstraint).value) <= 1000000000000
+//@   maypanic
+//@   ensures !(hasRule(node, constraint.PrecisionConstraintType) && hasRule(node, constraint.TypeConstraintType)) ==> normal
+//@   ensures panics ==> errWF(pv)
+
+// C08: an empty example array admits only minItems/maxItems 0
+//@ func (schemaCompiler).emptyArray(node)
+//@   props C08 C04
+//@   assumes isNode(node) && consReady(node) && consKinds(node)
+//@   maypanic
+//@   ensures panics <==> (typeis(node, *schema.ArrayNode) && len(unbox(node, *schema.ArrayNode).children) == 0 &&
+//@           ((hasRule(node, constraint.MinItemsConstraintType) && unbox(consOf(node).data[constraint.MinItemsConstraintType], *constraint.MinItems).value != 0)
+//@            || (hasRule(node, constraint.MaxItemsConstraintType) && unbox(consOf(node).data[constraint.MaxItemsConstraintType], *constraint.MaxItems).value != 0)))
+//@   ensures panics ==> errWF(pv)
+
+//@ func checkBranchNodeWithOrConstraint(schemaNode, jsonNode)
+//@   props C08
+//@   requires isNode(schemaNode) && consReady(schemaNode) && rulesTyped(schemaNode) && isBranch(jsonNode) && ival(jsonNode) != 0
+//@   assumes hasRule(schemaNode, constraint.TypesListConstraintType) ==> namesNonEmpty(schemaNode)
+//@   maypanic
+//@   ensures normal ==> len(childrenOf(jsonNode)) == 0
+//@   ensures panics ==> errWF(pv)
+//@   loop 0 invariant !hasUserTypeInOr
+//@   loop 0 decreases len(unbox(consOf(schemaNode).data[constraint.TypesListConstraintType], *constraint.TypesList).innerTypeNames) - rangeindex
+
+// C08: "or ... not combined with foreign rules": with or only the types list it
+// was built into, optional, nullable and type may appear; the or rule itself is
+// consumed
+//@ func (schemaCompiler).orConstraint(node)
+//@   props C08
+//@   requires isNode(node) && consReady(node) && rulesTyped(node)
+//@   maypanic
+//@   modifies consOf(node).data[*], consOf(node).order, consOf(node).order[*]
+//@   ensures !old(hasRule(node, constraint.OrConstraintType)) ==> normal
+//@   ensures normal && old(hasRule(node, constraint.OrConstraintType)) ==> old(hasRule(node, constraint.TypesListConstraintType)) && (forall q constraint.Type :: old(hasRule(node, q)) ==>
+//@           (q == constraint.OrConstraintType || q == constraint.TypesListConstraintType || q == constraint.OptionalConstraintType || q == constraint.NullableConstraintType || q == constraint.TypeConstraintType))
+//@   ensures old(hasRule(node, constraint.OrConstraintType)) && (!old(hasRule(node, constraint.TypesListConstraintType)) || (exists q constraint.Type :: old(hasRule(node, q)) &&
+//@           !(q == constraint.OrConstraintType || q == constraint.TypesListConstraintType || q == constraint.OptionalConstraintType || q == constraint.NullableConstraintType || q == constraint.TypeConstraintType))) ==> panics
+//@   ensures normal ==> consReady(node) && !hasRule(node, constraint.OrConstraintType)
+//@   ensures normal ==> (forall q constraint.Type :: q != constraint.OrConstraintType ==> hasRule(node, q) == old(hasRule(node, q)) && consOf(node).data[q] == old(consOf(node).data[q]))
+//@   ensures panics ==> errWF(pv)
+
+// C02/C08: "rules with value false (nullable, const) are inert": they are removed
+// before anything else looks at the rule set; every other rule stays, in order
+//@ func (schemaCompiler).falseConstraints$1(k, c)
+//@   props C02 C08
+//@   nopanic
+//@   ensures result == !((k == constraint.NullableConstraintType || k == constraint.ConstConstraintType) && isBoolKeeper(c) && !boolOf(c))
+
+//@ func (schemaCompiler).falseConstraints(node)
+//@   props C02 C08
+//@   requires isNode(node) && consReady(node) && allocated(consOf(node).order)
+//@   nopanic
+//@   modifies consOf(node).mx.held, consOf(node).data[*], consOf(node).order, consOf(node).order[*]
+//@   ensures consReady(node)
+//@   ensures forall q constraint.Type :: hasRule(node, q) <==> (old(hasRule(node, q)) && !((q == constraint.NullableConstraintType || q == constraint.ConstConstraintType) && isBoolKeeper(old(consOf(node).data[q])) && !old(boolOf(consOf(node).data[q]))))
+//@   ensures forall q constraint.Type :: hasRule(node, q) ==> consOf(node).data[q] == old(consOf(node).data[q])
+
+// C01: the required-key list of an object grows by exactly the given key
+//@ func addRequiredKey(node, key)
+//@   props C01
+//@   requires node != nil && consReady(box(node)) && rulesTyped(box(node))
+//@   nopanic
+//@   modifies consOf(box(node)).data, consOf(box(node)).data[*], consOf(box(node)).order, consOf(box(node)).order[*], unbox(consOf(box(node)).data[constraint.RequiredKeysConstraintType], *constraint.RequiredKeys).keys, unbox(consOf(box(node)).data[constraint.RequiredKeysConstraintType], *constraint.RequiredKeys).keys[*]
+//@   ensures consReady(box(node)) && hasRule(box(node), constraint.RequiredKeysConstraintType) && reqKeysReady(box(node))
+//@   ensures reqCount(box(node)) == old(reqCount(box(node))) + 1 && reqKeys(box(node))[old(reqCount(box(node)))] == key
+//@   ensures forall j :: 0 <= j && j < old(reqCount(box(node))) ==> reqKeys(box(node))[j] == old(reqKeys(box(node))[j])
+//@   ensures forall q constraint.Type :: q != constraint.RequiredKeysConstraintType ==> hasRule(box(node), q) == old(hasRule(box(node), q)) && consOf(box(node)).data[q] == old(consOf(box(node)).data[q])
+
+// C01: "optional / KeysAreOptionalByDefault decide membership in the required-key
+// list": a property is required iff it is not marked optional:true and either it
+// is marked optional:false or keys are not optional by default
+//@ func (schemaCompiler).optionalConstraints(node, indexOfNode)
+//@   props C01 C08
+//@   requires isNode(node) && consReady(node) && rulesTyped(node)
+//@   assumes typeis(parentOf(node), *schema.ObjectNode) ==> ival(parentOf(node)) != 0 && consReady(parentOf(node)) && rulesTyped(parentOf(node)) && consOf(parentOf(node)) != consOf(node) && consOf(parentOf(node)).data != consOf(node).data
+//@   maypanic
+//@   modifies consOf(parentOf(node)).data, consOf(parentOf(node)).data[*], consOf(parentOf(node)).order, consOf(parentOf(node)).order[*], unbox(consOf(parentOf(node)).data[constraint.RequiredKeysConstraintType], *constraint.RequiredKeys).keys, unbox(consOf(parentOf(node)).data[constraint.RequiredKeysConstraintType], *constraint.RequiredKeys).keys[*]
+//@   ensures hasRule(node, constraint.OptionalConstraintType) && !typeis(parentOf(node), *schema.ObjectNode) ==> panics
+//@   ensures normal && typeis(parentOf(node), *schema.ObjectNode) ==> reqCount(parentOf(node)) == old(reqCount(parentOf(node))) +
+//@           (old(hasRule(node, constraint.OptionalConstraintType) ? !boolOf(consOf(node).data[constraint.OptionalConstraintType]) : !compile.areKeysOptionalByDefault) ? 1 : 0)
+//@   ensures normal && typeis(parentOf(node), *schema.ObjectNode) ==> consReady(parentOf(node))
+//@   ensures panics ==> errWF(pv) || typeis(pv, string)
+
+// C08: all three pair checks run on every node, whatever its kind, and only
+// AFTER the exclusive flags have been folded into min/max (strictness of the
+// min/max comparison depends on them)
+//@ func (schemaCompiler).checkPairConstraints(node)
+//@   props C08
+//@   requires isNode(node) && consReady(node) && consKinds(node)
+//@   requires !hasRule(node, constraint.ExclusiveMinimumConstraintType) && !hasRule(node, constraint.ExclusiveMaximumConstraintType)
+//@   nopanic
+//@   ensures (result != nil) <==> (pairBadNum(node) || pairBadLen(node) || pairBadItems(node))
+//@   ensures result != nil ==> errWF(result)
+//@   loop 0 invariant len(checkers) == 3
+//@   loop 0 invariant (rangeindex >= 0 ==> app(checkers[0], node) == nil) && (rangeindex >= 1 ==> app(checkers[1], node) == nil) && (rangeindex >= 2 ==> app(checkers[2], node) == nil)
+//@   loop 0 decreases len(checkers) - rangeindex
+
+// ASSUMED (table of handler closures keyed by type name, user-type references;
+// not verified): the type rule is consumed; it may add a types list or a format /
+// any rule; every other rule, and the rule objects themselves, stay as they are
+//@ func (schemaCompiler).typeConstraint(node)
+//@   props C08
+//@   trusted "type rule expansion (handler table, user-type references) is not verified: only its frame and what it may add/remove are assumed"
+//@   maypanic
+//@   modifies consOf(node).data, consOf(node).data[*], consOf(node).order, consOf(node).order[*], unbox(node, *schema.MixedNode).baseNode.jsonType, unbox(node, *schema.MixedNode).baseNode.realType, unbox(node, *schema.LiteralNode).baseNode.realType, unbox(node, *schema.ObjectNode).baseNode.realType, unbox(node, *schema.ArrayNode).baseNode.realType, unbox(node, *schema.MixedValueNode).baseNode.realType
+//@   defines normal ==> consReady(node) && consKinds(node) && rulesTyped(node) && allocated(consOf(node).order)
+//@   defines normal ==> (forall q constraint.Type :: !typeRuleTouches(q) ==> hasRule(node, q) == old(hasRule(node, q)) && consOf(node).data[q] == old(consOf(node).data[q]))
+//@   defines panics ==> (typeis(pv, errors.DocumentError) || errWF(pv))
+
+// ASSUMED (range over a map literal; not verified): read-only; it reports exactly the banned combinations
+//@ func (schemaCompiler).allowedConstraintCheck(node)
+//@   props C08
+//@   trusted "range over a map literal is outside the verified subset: the result is assumed to be the banned-combination predicate"
+//@   nopanic
+//@   defines (err != nil) <==> bannedCombo(node)
+//@   defines err != nil ==> errWF(err)
+
+// C08/C01: the compile steps of one node.  The node handed in is ASSUMED to be a
+// well-formed node of the loader's tree (rule set present, unlocked and
+// consistent; rule objects of the right dynamic type): tree ownership is not
+// modelled, so this cannot be stated as a checked precondition of the recursion
+//@ func (schemaCompiler).compileNode(node, indexOfNode)
+//@   props C08 C01 C04
+//@   assumes isNode(node) && consReady(node) && consKinds(node) && rulesTyped(node) && allocated(consOf(node).order) && lexWF(basisLex(node))
+//@   maypanic
+//@   modifies *
+//@   ensures panics ==> typeis(pv, errors.DocumentError)
+//@   loop 0 invariant rangeindex >= 0 - 1
